@@ -19,7 +19,8 @@ def enum_leaves(bits=ENUM_BITS):
     for b in bits:
         out.append(enum_with_max((1 << b) - 1))  # upper edge of width b
         if b > 1:
-            out.append(enum_with_max(1 << (b - 1)))  # lower edge of width b
+            m = 1 << (b - 1)  # lower edge of width b; names sort in the opposite order of the values
+            out.append(("en", (("y0", 0), ("a%d" % m, m))))
         else:
             out.append(enum_with_max(0))  # single enumerator 0: still 1 bit
     return out
@@ -32,9 +33,12 @@ def leaves_full(widths):
         out.append(I(w))
     out += [F32, F64, STR]
     out += enum_leaves()
-    out += [St(U(3)), St(I(5), F32)]
+    out += [St(U(3)), St(I(5), F32), OOO]
     return out
 
+
+# nested struct whose fields are DECLARED out of field-id order (wire order is b, a)
+OOO = ("st", (("a", 1, U(3)), ("b", 0, I(6))))
 
 # one per kind and per alignment class
 REP12 = [
@@ -50,6 +54,7 @@ REP12 = [
     STR,
     enum_with_max(5),  # 3 bits
     St(U(3), I(6)),
+    OOO,
 ]
 REP6 = [U(3), I(5), F32, STR, enum_with_max(2), St(U(3), I(6))]
 REP4 = [U(3), I(16), STR, enum_with_max(5)]
@@ -73,8 +78,10 @@ def type_trees(leaves, depth, **kw):
     return [t for t, _d in order], transitions
 
 
-def contexts(t, offsets, tails=(True, False)):
-    """Place T as field x of S {pad:U(p)?, x:T, tail:U5?} for each offset / tail choice."""
+def contexts(t, offsets, tails=(True, False), reversed_decl_offsets=()):
+    """Place T as field x of S {pad:U(p)?, x:T, tail:U5?} for each offset / tail choice.  For the
+    offsets in reversed_decl_offsets the same struct is also DECLARED in reverse order (tail, x, pad)
+    with unchanged field ids, so the wire order differs from the declaration order."""
     out = []
     for p in offsets:
         for tail in tails:
@@ -88,14 +95,19 @@ def contexts(t, offsets, tails=(True, False)):
             if tail:
                 fields.append(("tail", fid, U(5)))
             out.append(("st", tuple(fields)))
+            if p in reversed_decl_offsets and tail and len(fields) > 1:
+                out.append(("st", tuple(reversed(fields))))
     return out
 
 
-def field_sequences(reps, maxlen, minlen=2):
+def field_sequences(reps, maxlen, minlen=2, reversed_ids=False):
     out = []
     for n in range(minlen, maxlen + 1):
         for combo in itertools.product(reps, repeat=n):
             out.append(("st", tuple(("g%d" % i, i, t) for i, t in enumerate(combo))))
+            if reversed_ids:
+                # same declaration order, ids descending: the wire order is the reverse
+                out.append(("st", tuple(("g%d" % i, n - 1 - i, t) for i, t in enumerate(combo))))
     return out
 
 
